@@ -42,7 +42,7 @@ func (fr *Frame) loopEffects(pre *State, li *loopInfo) *loopEffects {
 					writtenLocal[x] = true
 				}
 			case *ssa.Store:
-				if a, ok := x.Addr.(*ssa.Alloc); ok && fr.reg[a] {
+				if a, _, _, ok := fr.localRoot(x.Addr); ok {
 					writtenLocal[a] = true
 				} else if fa, ok := x.Addr.(*ssa.FieldAddr); ok {
 					storedField[fieldSig(fa)] = true
@@ -57,7 +57,7 @@ func (fr *Frame) loopEffects(pre *State, li *loopInfo) *loopEffects {
 				eff.locals = append(eff.locals, a)
 			}
 			if s, ok := in.(*ssa.Store); ok {
-				if a, ok := s.Addr.(*ssa.Alloc); ok && fr.reg[a] && !seenLocal[a] {
+				if a, _, _, ok := fr.localRoot(s.Addr); ok && !seenLocal[a] {
 					seenLocal[a] = true
 					eff.locals = append(eff.locals, a)
 				}
@@ -125,6 +125,13 @@ func (fr *Frame) loopEffects(pre *State, li *loopInfo) *loopEffects {
 				}
 				return fr.getLocal(pre, a), true, false
 			}
+			if a, off, t, ok := fr.localRoot(x.X); ok {
+				if writtenLocal[a] {
+					return Val{}, false, false
+				}
+				whole := fr.getLocal(pre, a)
+				return Val{T: t, S: whole.S[off : off+vc.p.lay.size(t)]}, true, false
+			}
 			// heap load of a field of a root-only struct that the loop never stores
 			if fa, ok := x.X.(*ssa.FieldAddr); ok {
 				st := fa.X.Type().Underlying().(*types.Pointer).Elem()
@@ -141,8 +148,40 @@ func (fr *Frame) loopEffects(pre *State, li *loopInfo) *loopEffects {
 		}
 		return Val{}, false, false
 	}
+	// static type of the object an address points into, when it is root-only
+	var objType func(v ssa.Value, depth int) types.Type
+	objType = func(v ssa.Value, depth int) types.Type {
+		if depth > 6 {
+			return nil
+		}
+		switch x := v.(type) {
+		case *ssa.FieldAddr:
+			st := x.X.Type().Underlying().(*types.Pointer).Elem()
+			if vc.p.rootOnly(st) {
+				return st
+			}
+			return objType(x.X, depth+1)
+		case *ssa.IndexAddr:
+			if pt, ok := x.X.Type().Underlying().(*types.Pointer); ok {
+				_ = pt
+				return objType(x.X, depth+1)
+			}
+			return x.X.Type() // slice backing array: dynamic type is the slice type
+		}
+		if pt, ok := v.Type().Underlying().(*types.Pointer); ok && vc.p.rootOnly(pt.Elem()) {
+			return pt.Elem()
+		}
+		return nil
+	}
 	addObj := func(v ssa.Value, t types.Type) {
 		val, ok, fresh := rootVal(v, 0)
+		if !ok {
+			if ot := objType(v, 0); ot != nil {
+				eff.targets = append(eff.targets, modTarget{kind: "type", tid: vc.p.typeID(ot)})
+				markKinds(t, true)
+				return
+			}
+		}
 		if ok && fresh {
 			markKinds(t, true)
 			return
@@ -163,7 +202,7 @@ func (fr *Frame) loopEffects(pre *State, li *loopInfo) *loopEffects {
 					markKinds(x.Type().(*types.Pointer).Elem(), true) // fresh object
 				}
 			case *ssa.Store:
-				if a, ok := x.Addr.(*ssa.Alloc); ok && fr.reg[a] {
+				if _, _, _, ok := fr.localRoot(x.Addr); ok {
 					continue
 				}
 				addObj(x.Addr, x.Val.Type())
